@@ -21,6 +21,11 @@ One atom = one persistence event of the real code (one `vevent` call site, see
 `create p; extend p` and `truncate p 0; unlink p` are two system calls inside one library call
 (`z.OpenMmapFile`, `z.MmapFile.Delete`): one atom, but two crash points at the syscall level
 (`C08`'s finding F17 lives in between).
+
+Every atom checks, on the logical state alone, the conditions under which the code executes it
+(`Atom.guard`); an atom whose guard fails emits nothing. In the programs generated below the
+guards always hold (the correspondence run would show a missing event otherwise); they make
+every safety argument local to one atom.
 -/
 namespace Badger
 
@@ -32,36 +37,60 @@ structure Txn where
 structure Cfg where
   syncWrites : Bool := true
   vlogMaxEntries : Nat := 1000
-  /-- the intended fix for F4: fsync the directory after creating a `.mem` / `.vlog` file and
-      before the MANIFEST record of a flushed table -/
+  /-- the intended fix for F4: fsync a new `.mem` / `.vlog` file and the directory right after
+      creating it, and the directory before the MANIFEST record of a flushed table -/
   dirSyncFix : Bool := false
   deriving DecidableEq, Repr, Inhabited
 
-/-- one persistence event of the writer thread, with its effect on the logical state -/
+/-- one output table of a compaction in progress: id, level, content, stage
+    (0 id reserved, 1 file created, 2 content written) -/
+structure KOut where
+  id : Nat
+  level : Nat
+  ents : List CEnt
+  stage : Nat := 0
+  deriving DecidableEq, Repr
+
+/-- one persistence event of the writer thread -/
 inductive Atom
-  | io (ops : List FsOp)            -- no effect on the logical state
+  | sync (p : Path)                 -- msync / fsync
+  | syncDir
+  | zero (p : Path)                 -- zeroNextEntry
+  | vput (key : Bytes) (ver : Nat)  -- one value-log record
+  | vtrunc                          -- `doneWriting`: ftruncate the value log to its write offset
+  | vrot                            -- `createVlogFile`: create+extend the next `.vlog`
+  | vhdr                            -- `bootstrap` of the new `.vlog`
   | pushImm                         -- `flushChan <- mt; imm = append(imm, mt)` (no FsOp)
   | newMem                          -- `newMemTable`: create+extend the next `.mem`
-  | fin (t : Txn)                   -- the end-of-transaction record of `t` reaches the WAL
+  | mhdr                            -- `bootstrap` of the new `.mem`
+  | wput (e : CEnt)                 -- one WAL record of the transaction in flight
+  | fin                             -- its end-of-transaction record
   | ack                             -- `Commit` returns nil (no FsOp)
-  | vput (key : Bytes) (ver : Nat)  -- one value-log record
-  | vrot                            -- `createVlogFile`: create+extend the next `.vlog`
-  | mset (cs : List MChange) (conts : List (Nat × List CEnt))  -- MANIFEST change set of a compaction
-  deriving Repr
+  | kmk (id : Nat)                  -- compaction: create+extend an output table
+  | kwrite (id : Nat)               -- compaction: store its content
+  | kmset                           -- compaction: MANIFEST change set (creates + deletes)
+  | kdel (id : Nat)                 -- compaction: delete an input table
+  deriving Repr, DecidableEq
 
 structure PState where
   cfg : Cfg := {}
   nextTs : Nat := 1                       -- oracle.nextTxnTs
   cur : Nat := 1                          -- fid of the active memtable's WAL
   curOpen : Bool := true                  -- false between `pushImm` and `newMem`
+  curHdr : Bool := true                   -- the active WAL has its header
   nextMem : Nat := 2
   imm : List Nat := []                    -- immutable memtables (fids), oldest first
   mtxns : List (Nat × List Txn) := []     -- fid ↦ complete transactions in that WAL
+  inflight : Option Txn := none           -- the transaction being written
+  pending : List CEnt := []               -- its entries already in the active WAL
   fpc : Nat := 0                          -- flusher: next atom of the flush of `imm.head`
   fsst : Nat := 0                         -- flusher: table id reserved for it
   nextSst : Nat := 1
   tset : List (Nat × Nat) := []           -- MANIFEST: table id ↦ level
   tcont : List (Nat × List CEnt) := []    -- table id ↦ content
+  kins : List Nat := []                   -- compaction in progress: inputs
+  kout : List KOut := []                  -- … outputs
+  kdelq : List Nat := []                  -- … inputs still to be deleted
   vfid : Nat := 1
   vcount : Nat := 0                       -- valueLog.numEntriesWritten
   vchunks : Nat := 1                      -- chunks in the current vlog file (header included)
@@ -78,34 +107,102 @@ def PState.tableEnts (s : PState) (id : Nat) : List CEnt := (aget id s.tcont).ge
 
 /-- everything stored, in the order tables, immutable memtables, active memtable -/
 def PState.lsmEnts (s : PState) : List CEnt :=
-  (s.tset.map (fun x => s.tableEnts x.1)).flatten ++ (s.imm.map s.memEnts).flatten ++ s.memEnts s.cur
+  (s.tset.map (fun x => s.tableEnts x.1)).flatten ++ (s.imm.map s.memEnts).flatten ++
+    (if s.curOpen then s.memEnts s.cur else [])
 
-def syncDirIfFix (c : Cfg) : List FsOp := if c.dirSyncFix then [.syncDir] else []
+def nodupNat : List Nat → Bool
+  | [] => true
+  | x :: xs => !xs.contains x && nodupNat xs
 
-/-- the `FsOp`s of one writer atom in state `s` -/
-def Atom.ops (s : PState) : Atom → List FsOp
-  | .io ops => ops
+/-- the flusher holds the table file `id` (created, not yet in the MANIFEST) -/
+def PState.flusherHolds (s : PState) (id : Nat) : Bool :=
+  !s.imm.isEmpty && 1 ≤ s.fpc && s.fpc ≤ 4 && s.fsst == id
+
+def kmsetChanges (s : PState) : List MChange :=
+  s.kout.map (fun o => MChange.create o.id o.level) ++ s.kins.map MChange.delete
+
+/-- the condition under which the code executes the atom -/
+def Atom.guard (s : PState) : Atom → Bool
+  | .sync _ => true
+  | .syncDir => true
+  | .zero _ => true
+  | .vput _ _ => true
+  | .vtrunc => 1 ≤ s.vchunks
+  | .vrot => true
+  | .vhdr => true
+  | .pushImm => s.curOpen && s.pending.isEmpty
+  | .newMem => !s.curOpen
+  | .mhdr => s.curOpen && !s.curHdr
+  | .wput _ => s.curOpen && s.curHdr && s.inflight.isSome
+  | .fin =>
+    match s.inflight with
+    | some t => s.curOpen && s.curHdr && s.pending == t.ents && !t.ents.isEmpty && t.ts != 0
+    | none => false
+  | .ack => s.acked < s.done
+  | .kmk id => s.kout.any (fun o => o.id == id && o.stage == 0) && !s.flusherHolds id
+  | .kwrite id => s.kout.any (fun o => o.id == id && o.stage == 1) && !s.flusherHolds id
+  | .kmset =>
+    !s.kins.isEmpty && s.kout.all (fun o => o.stage == 2 && (aget o.id s.tset).isNone) &&
+    nodupNat (s.kout.map (·.id)) && nodupNat s.kins &&
+    s.kins.all (fun id => (aget id s.tset).isSome) && (applyMSet s.tset (kmsetChanges s)).isSome
+  | .kdel id =>
+    s.kdelq.contains id && (aget id s.tset).isNone && !s.flusherHolds id && !s.kout.any (fun o => o.id == id)
+
+/-- the `FsOp`s of one writer atom in state `s` (when its guard holds) -/
+def Atom.rawOps (s : PState) : Atom → List FsOp
+  | .sync p => [.sync p]
+  | .syncDir => [.syncDir]
+  | .zero p => [.zero p]
+  | .vput k v => [.append (.vlog s.vfid) (.vEnt k v)]
+  | .vtrunc => [.truncate (.vlog s.vfid) s.vchunks]
+  | .vrot => mkFile (.vlog (s.vfid + 1))
+  | .vhdr => [.append (.vlog s.vfid) .hdr]
   | .pushImm => []
   | .newMem => mkFile (.mem s.nextMem)
-  | .fin t => [.append (.mem s.cur) (.walFin t.ts)]
+  | .mhdr => [.append (.mem s.cur) .hdr]
+  | .wput e => [.append (.mem s.cur) (.walEnt ((s.inflight.map (·.ts)).getD 0) e)]
+  | .fin => [.append (.mem s.cur) (.walFin ((s.inflight.map (·.ts)).getD 0))]
   | .ack => []
-  | .vput k v => [.append (.vlog s.vfid) (.vEnt k v)]
-  | .vrot => mkFile (.vlog (s.vfid + 1))
-  | .mset cs _ => [.append .manifest (.mset cs)]
+  | .kmk id => mkFile (.sst id)
+  | .kwrite id =>
+    match s.kout.find? (fun o => o.id == id) with
+    | some o => [.append (.sst id) (.table o.ents)]
+    | none => []
+  | .kmset => [.append .manifest (.mset (kmsetChanges s))]
+  | .kdel id => delFile (.sst id)
 
-def Atom.eff (s : PState) : Atom → PState
-  | .io _ => s
-  | .pushImm => { s with imm := s.imm ++ [s.cur], curOpen := false }
-  | .newMem => { s with cur := s.nextMem, curOpen := true, nextMem := s.nextMem + 1 }
-  | .fin t => { s with mtxns := aset s.cur (s.memTxns s.cur ++ [t]) s.mtxns, done := s.done + 1 }
-  | .ack => { s with acked := s.acked + 1 }
+def Atom.rawEff (s : PState) : Atom → PState
+  | .sync _ => s
+  | .syncDir => s
+  | .zero _ => s
   | .vput _ _ => { s with vcount := s.vcount + 1, vchunks := s.vchunks + 1 }
-  | .vrot => { s with vfid := s.vfid + 1, vcount := 0, vchunks := 1 }
-  | .mset cs conts =>
-    { s with tset := (applyMSet s.tset cs).getD s.tset,
-             tcont := conts ++ s.tcont }
+  | .vtrunc => s
+  | .vrot => { s with vfid := s.vfid + 1, vcount := 0, vchunks := 0 }
+  | .vhdr => { s with vchunks := s.vchunks + 1 }
+  | .pushImm => { s with imm := s.imm ++ [s.cur], curOpen := false }
+  | .newMem => { s with cur := s.nextMem, curOpen := true, curHdr := false, nextMem := s.nextMem + 1 }
+  | .mhdr => { s with curHdr := true }
+  | .wput e => { s with pending := s.pending ++ [e] }
+  | .fin =>
+    match s.inflight with
+    | some t => { s with mtxns := aset s.cur (s.memTxns s.cur ++ [t]) s.mtxns, pending := [],
+                         inflight := none, done := s.done + 1 }
+    | none => s
+  | .ack => { s with acked := s.acked + 1 }
+  | .kmk id => { s with kout := s.kout.map (fun o => if o.id == id then { o with stage := 1 } else o) }
+  | .kwrite id => { s with kout := s.kout.map (fun o => if o.id == id then { o with stage := 2 } else o) }
+  | .kmset =>
+    { s with tset := (applyMSet s.tset (kmsetChanges s)).getD s.tset,
+             tcont := s.kout.map (fun o => (o.id, o.ents)) ++ s.tcont,
+             kdelq := s.kins, kins := [], kout := [] }
+  | .kdel id => { s with kdelq := s.kdelq.filter (· ≠ id) }
+
+def Atom.ops (s : PState) (a : Atom) : List FsOp := if a.guard s then a.rawOps s else []
+def Atom.eff (s : PState) (a : Atom) : PState := if a.guard s then a.rawEff s else s
 
 /-! ## programs of the logical steps -/
+
+def fixSync (c : Cfg) (p : Path) : List Atom := if c.dirSyncFix then [.sync p, .syncDir] else []
 
 /-- `valueLog.write` for one request holding the transaction `t` -/
 def vlogProg (s : PState) (t : Txn) : List Atom :=
@@ -114,41 +211,34 @@ def vlogProg (s : PState) (t : Txn) : List Atom :=
   let n := s.vcount + bigs.length
   let rot : List Atom :=
     if n > s.cfg.vlogMaxEntries then
-      (if s.cfg.syncWrites then [Atom.io [.sync (.vlog s.vfid)]] else []) ++
-      (if bigs.isEmpty then [] else [Atom.io [.truncate (.vlog s.vfid) (s.vchunks + bigs.length)]]) ++
-      [Atom.vrot, .io [.append (.vlog (s.vfid + 1)) .hdr], .io [.zero (.vlog (s.vfid + 1))]] ++
-      (if s.cfg.dirSyncFix then [Atom.io [.syncDir]] else [])
+      (if s.cfg.syncWrites then [Atom.sync (.vlog s.vfid)] else []) ++
+      (if bigs.isEmpty then [] else [Atom.vtrunc]) ++
+      [.vrot, .vhdr, .zero (.vlog (s.vfid + 1))] ++ fixSync s.cfg (.vlog (s.vfid + 1))
     else []
   let fidAfter := if n > s.cfg.vlogMaxEntries then s.vfid + 1 else s.vfid
-  puts ++ rot ++ (if s.cfg.syncWrites then [Atom.io [.sync (.vlog fidAfter)]] else [])
+  puts ++ rot ++ (if s.cfg.syncWrites then [Atom.sync (.vlog fidAfter)] else [])
 
 /-- `ensureRoomForWrite` when the memtable is full -/
 def rotateProg (s : PState) : List Atom :=
-  [.pushImm, .newMem, .io [.append (.mem s.nextMem) .hdr], .io [.zero (.mem s.nextMem)]] ++
-  (if s.cfg.dirSyncFix then [Atom.io [.syncDir]] else [])
+  [.pushImm, .newMem, .mhdr, .zero (.mem s.nextMem)] ++ fixSync s.cfg (.mem s.nextMem)
 
 /-- `writeToLSM` -/
 def walProg (s : PState) (fid : Nat) (t : Txn) : List Atom :=
-  (t.ents.map (fun e => [Atom.io [.append (.mem fid) (.walEnt t.ts e)], Atom.io [.zero (.mem fid)]])).flatten ++
-  [.fin t, .io [.zero (.mem fid)]] ++
-  (if s.cfg.syncWrites then [Atom.io [.sync (.mem fid)]] else []) ++ [.ack]
+  (t.ents.map (fun e => [Atom.wput e, Atom.zero (.mem fid)])).flatten ++
+  [.fin, .zero (.mem fid)] ++
+  (if s.cfg.syncWrites then [Atom.sync (.mem fid)] else []) ++ [.ack]
 
 /-- the entries of a commit as stored: version = commit timestamp; a value at or above the
-    threshold (`big`) goes to the current value-log file -/
+    threshold (`vfid ≠ 0` in the request) goes to the current value-log file -/
 def stamp (s : PState) (ents : List CEnt) : List CEnt :=
   ents.map (fun e => { e with ver := s.nextTs, vfid := if e.vfid ≠ 0 then s.vfid else 0 })
 
-def commitProg (s : PState) (ents : List CEnt) (rot : Bool) : List Atom :=
-  let t : Txn := { ts := s.nextTs, ents := stamp s ents }
+def commitProg (s : PState) (t : Txn) (rot : Bool) : List Atom :=
   vlogProg s t ++ (if rot then rotateProg s else []) ++ walProg s (if rot then s.nextMem else s.cur) t
 
-def compactProg (s : PState) (ins : List Nat) (outs : List (Nat × List CEnt)) : List Atom :=
-  let ids := (List.range outs.length).map (· + s.nextSst)
-  let mk := ((ids.zip outs).map (fun (id, o) =>
-    [Atom.io (mkFile (.sst id)), Atom.io [.append (.sst id) (.table o.2)], Atom.io [.sync (.sst id)]])).flatten
-  let cs := (ids.zip outs).map (fun (id, o) => MChange.create id o.1) ++ ins.map MChange.delete
-  mk ++ [.io [.syncDir], .mset cs ((ids.zip outs).map (fun (id, o) => (id, o.2))), .io [.sync .manifest]] ++
-  ins.map (fun id => Atom.io (delFile (.sst id)))
+def compactProg (ids : List Nat) (ins : List Nat) : List Atom :=
+  (ids.map (fun id => [Atom.kmk id, .kwrite id, .sync (.sst id)])).flatten ++
+  [.syncDir, .kmset, .sync .manifest] ++ ins.map Atom.kdel
 
 /-! ## scheduler -/
 
@@ -159,10 +249,6 @@ inductive Sched
   | w                                        -- the writer executes its next atom
   | f                                        -- the flusher executes its next atom
   deriving Repr
-
-def nodupNat : List Nat → Bool
-  | [] => true
-  | x :: xs => !xs.contains x && nodupNat xs
 
 /-- the flusher's next atom: `(FsOps, next state)`, `none` when it has nothing to do -/
 def flushAtom (s : PState) : Option (List FsOp × PState) :=
@@ -179,8 +265,11 @@ def flushAtom (s : PState) : Option (List FsOp × PState) :=
     | 1 => some ([.append (.sst s.fsst) (.table es)], { s with fpc := 2 })
     | 2 => some ([.sync (.sst s.fsst)], { s with fpc := if s.cfg.dirSyncFix then 3 else 4 })
     | 3 => some ([.syncDir], { s with fpc := 4 })
-    | 4 => some ([.append .manifest (.mset [.create s.fsst 0])],
-                 { s with fpc := 5, tset := aset s.fsst 0 s.tset, tcont := (s.fsst, es) :: s.tcont })
+    | 4 =>
+      if (aget s.fsst s.tset).isNone then
+        some ([.append .manifest (.mset [.create s.fsst 0])],
+              { s with fpc := 5, tset := aset s.fsst 0 s.tset, tcont := (s.fsst, es) :: s.tcont })
+      else none
     | 5 => some ([.sync .manifest], { s with fpc := 6 })
     | _ => some (delFile (.mem k), { s with imm := rest, fpc := 0 })
 
@@ -188,15 +277,19 @@ def flushAtom (s : PState) : Option (List FsOp × PState) :=
     enabled (writer busy, ill-formed compaction, …) do nothing. -/
 def PState.step (s : PState) : Sched → List FsOp × PState
   | .commit ents rot =>
-    if s.wq.isEmpty ∧ s.curOpen ∧ !ents.isEmpty then
+    if s.wq.isEmpty ∧ s.inflight.isNone ∧ s.pending.isEmpty ∧ s.curOpen ∧ !ents.isEmpty ∧ s.nextTs ≠ 0 then
       let t : Txn := { ts := s.nextTs, ents := stamp s ents }
-      ([], { s with wq := commitProg s ents rot, nextTs := s.nextTs + 1, commits := s.commits ++ [t] })
+      ([], { s with wq := commitProg s t rot, nextTs := s.nextTs + 1, commits := s.commits ++ [t],
+                    inflight := some t })
     else ([], s)
   | .flushReq =>
-    if s.wq.isEmpty ∧ s.curOpen then ([], { s with wq := rotateProg s }) else ([], s)
+    if s.wq.isEmpty ∧ s.curOpen ∧ s.pending.isEmpty then ([], { s with wq := rotateProg s }) else ([], s)
   | .compact ins outs =>
-    if s.wq.isEmpty ∧ nodupNat ins ∧ ins.all (fun id => (aget id s.tset).isSome) ∧ !ins.isEmpty then
-      ([], { s with wq := compactProg s ins outs, nextSst := s.nextSst + outs.length })
+    if s.wq.isEmpty ∧ s.kins.isEmpty ∧ s.kout.isEmpty ∧ s.kdelq.isEmpty ∧ nodupNat ins ∧
+       ins.all (fun id => (aget id s.tset).isSome) ∧ !ins.isEmpty then
+      let ids := (List.range outs.length).map (· + s.nextSst)
+      ([], { s with wq := compactProg ids ins, nextSst := s.nextSst + outs.length, kins := ins,
+                    kout := (ids.zip outs).map (fun (id, o) => { id := id, level := o.1, ents := o.2 }) })
     else ([], s)
   | .w =>
     match s.wq with
@@ -214,17 +307,14 @@ structure MState where
   deriving Repr, Inhabited
 
 def MState.step (m : MState) (x : Sched) : MState :=
-  let (ops, p') := m.p.step x
-  { p := p', fs := m.fs.run ops }
+  { p := (m.p.step x).2, fs := m.fs.run (m.p.step x).1 }
 
 def MState.exec (m : MState) (h : List Sched) : MState := h.foldl MState.step m
 
-/-- all `FsOp`s a history emits from logical state `p`, atom by atom -/
+/-- the `FsOp`s a history emits from logical state `p`, atom by atom -/
 def PState.atoms : PState → List Sched → List (List FsOp)
   | _, [] => []
   | p, x :: h => (p.step x).1 :: PState.atoms (p.step x).2 h
-
-def PState.execP (p : PState) (h : List Sched) : PState := h.foldl (fun p x => (p.step x).2) p
 
 /-- the `FsOp`s of the very first `Open` of an empty directory -/
 def firstOpenOps : List FsOp :=
